@@ -57,6 +57,8 @@ def leaf(draw, tock, *, faults=False, members=False, depth=0, max_steps=6, forev
                     targets = [["pool", j] for j in draw(st.lists(st.integers(0, npool - 1), min_size=1, max_size=npool,
                                                                   unique=True))]
             action = [op, up, targets]
+            if enter_ops and draw(st.integers(0, 5)) == 0:
+                action = draw(_restart(up))
         steps.append([action, draw(yv)])
     if k == "doer":
         end = draw(st.sampled_from([["ret", True], ["ret", True], ["ret", 1], ["ret", "x"]] +
@@ -78,7 +80,22 @@ def leaf(draw, tock, *, faults=False, members=False, depth=0, max_steps=6, forev
             tg = st.one_of(st.tuples(st.just("live"), st.integers(0, 7)), st.tuples(st.just("live"), st.integers(0, 7)),
                            st.tuples(st.just("self")))
         out["enter_act"] = [op, up, draw(st.lists(tg.map(list), min_size=1, max_size=2))]
+        if draw(st.integers(0, 2)) == 0:
+            out["enter_act"] = draw(_restart(up))
     return out
+
+
+@st.composite
+def _restart(draw, up):
+    """Several calls in one context: remove then extend of the same doer (restart it; named the way a caller names it, so a
+    bound-method doer is a fresh, equal object in each call), optionally with another call before or after."""
+    t = ["sib", draw(st.integers(0, 5))]
+    seq = [["remove", up, [t]], ["extend", up, [t]]]
+    extra = draw(st.sampled_from([None, None, None, ["extend", up, [["sib", draw(st.integers(0, 5))]]],
+                                  ["remove", up, [["live", draw(st.integers(0, 7))]]]]))
+    if extra is not None:
+        seq.insert(draw(st.sampled_from([0, 2])), extra)
+    return ["seq", seq]
 
 
 @st.composite
